@@ -1435,15 +1435,21 @@ func (ls *LState) NewThread() (*LState, context.CancelFunc) {
 	thread.G = ls.G
 	thread.Env = ls.Env
 	var f context.CancelFunc = nil
-	if ls.ctx != nil {
-		// a coroutine's own context is cancelled when the coroutine ends (to
-		// release it). Coroutines it created may outlive it, so theirs hang
-		// below the context that was attached with SetContext, not below the
-		// creator's.
-		parent := ls.ctxParent
-		if parent == nil {
-			parent = ls.ctx
-		}
+	// a coroutine's own context is cancelled when the coroutine ends (to
+	// release it). Coroutines it created may outlive it, so theirs hang
+	// below the context that was attached with SetContext, not below the
+	// creator's.
+	parent := ls.ctxParent
+	if parent == nil {
+		parent = ls.ctx
+	}
+	if main := ls.G.MainThread; main != nil && main != ls && main.ctxParent != nil && (ls.ctx == nil || ls.ctx != ls.ctxParent) {
+		// the creator is a coroutine (no SetContext of its own): what governs the
+		// new one is the context attached to the state now, also when the creator
+		// was made before that context was attached or under one it replaced
+		parent = main.ctxParent
+	}
+	if parent != nil {
 		thread.mainLoop = mainLoopWithContext
 		thread.ctx, f = context.WithCancel(parent)
 		thread.ctxParent = parent
